@@ -114,6 +114,12 @@ def run(ctx):
     rc2, mlog = vlib.sh([drv, out], timeout=2400)
     m = re.search(r"CASES (\d+) MISMATCHES (\d+)", mlog)
     mism = int(m.group(2)) if m else -1
+    compared = int(m.group(1)) if m else -1
+    ctx.min_evaluations = 2000000 if ctx.tier == "thorough" else 60000
+    if not ctx.replay and (rc2 != 0 or compared != summ.get("cases", -2)):
+        # zero-comparison guard: the driver must have read, to the END marker, exactly the cases the harness generated
+        ctx.violation("c14-driver-count", "the model driver compared %d cases (rc %d), the harness generated %s: %s"
+                      % (compared, rc2, summ.get("cases"), mlog[-300:]), {"driver_output": mlog[-2000:]}, found_input=False)
 
     # property-level failures on the implementation (a concrete failing input each)
     for kind, d in sorted(summ["propfail"].items()):
